@@ -345,6 +345,33 @@ class Timer(Thread):
         self.finished.set()
 
 
+class Local:
+    """threading.local for simulated threads (storage keyed by the simulated thread)."""
+
+    def __init__(self):
+        object.__setattr__(self, "_store", {})
+
+    def _mine(self):
+        k = _kernel
+        tid = k.current.tid if k is not None and k.current is not None else -1
+        return object.__getattribute__(self, "_store").setdefault(tid, {})
+
+    def __getattr__(self, name):
+        try:
+            return self._mine()[name]
+        except KeyError:
+            raise AttributeError(name) from None
+
+    def __setattr__(self, name, value):
+        self._mine()[name] = value
+
+    def __delattr__(self, name):
+        try:
+            del self._mine()[name]
+        except KeyError:
+            raise AttributeError(name) from None
+
+
 class _MainThreadStub:
     name = "MainThread"
     daemon = False
@@ -370,6 +397,7 @@ class ThreadingFacade(types.ModuleType):
         self.RLock = RLock
         self.Semaphore = Semaphore
         self.BoundedSemaphore = Semaphore
+        self.local = Local
         self.TIMEOUT_MAX = _real_threading.TIMEOUT_MAX
 
     @staticmethod
@@ -598,6 +626,7 @@ def install(extra_module_facades=None, preemptible=None):
         _real_threading.Thread: Thread, _real_threading.Timer: Timer, _real_threading.Event: Event,
         _real_threading.Condition: Condition, _real_threading.Lock: Lock, _real_threading.RLock: RLock,
         _real_threading.Semaphore: Semaphore, _real_threading.BoundedSemaphore: Semaphore,
+        _real_threading.local: Local,
         _real_queue.Queue: Queue, _real_queue.SimpleQueue: Queue,
         _real_time.sleep: time_facade.sleep, _real_time.time: time_facade.time,
         _real_time.monotonic: time_facade.monotonic, _real_time.perf_counter: time_facade.monotonic,
